@@ -12,6 +12,7 @@ structure RunResult where
   stdinLeft : Str := []
   inconclusive : Bool := false
   crash : Option CrashPoint := none
+  steps : Nat := 0
 deriving Inhabited
 
 def warningText (t : Tok) : Str :=
@@ -76,7 +77,7 @@ def runFileOn (cfg : Cfg) (content : Str) (fs : List (Str × FsNode)) (stdin : S
   (o, closeAllSt s)
 
 def resultOf (o : Outcome) (s : St) : RunResult :=
-  let base : RunResult := { out := s.output, fs := s.fs, stdinLeft := s.stdin }
+  let base : RunResult := { out := s.output, fs := s.fs, stdinLeft := s.stdin, steps := s.steps }
   match o with
   | .ok => base
   | .diag d => if isBudget d then { base with inconclusive := true } else { base with diags := [d], exitCode := 1 }
